@@ -329,6 +329,29 @@ judged:
 		case <-time.After(3 * time.Second):
 		}
 	}
+	// requests on different connections are recorded by different goroutines: order them as sent
+	// (the targets are unique); per connection the order is the order on the wire
+	if len(got) == len(wants) {
+		byTarget := map[string]int{}
+		for i, w := range wants {
+			byTarget[w.target] = i
+		}
+		ordered := make([]seqObs, len(got))
+		okOrder := true
+		used := map[int]bool{}
+		for _, g := range got {
+			i, ok := byTarget[g.Target]
+			if !ok || used[i] {
+				okOrder = false
+				break
+			}
+			used[i] = true
+			ordered[i] = g
+		}
+		if okOrder {
+			got = ordered
+		}
+	}
 	for i, g := range got {
 		w := wants[i]
 		if g.Err != "" {
